@@ -148,6 +148,7 @@ func envOr(k, d string) string {
 }
 
 func runCheck(prog *Program, prop, tier, verif, only string, loadSecs float64, t0 time.Time) int {
+	prog.verifDir = verif
 	seed, _ := strconv.Atoi(os.Getenv("VERIF_SEED"))
 	timeout := 10 * time.Second
 	needAll := false
@@ -312,7 +313,7 @@ func runCheck(prog *Program, prop, tier, verif, only string, loadSecs float64, t
 			}
 			continue
 		}
-		if cal, ok := newCallee[o.Func]; ok {
+		if cal, ok := newCallee[o.Func]; ok && o.Class != "lock" { // (lock discipline is syntactic: no havoc can fake it)
 			nObl--
 			if !undecidedNew[o.Func] {
 				undecidedNew[o.Func] = true
